@@ -38,7 +38,10 @@ pub const IMMEDIATE_ACK_EVERY_RMSS: usize = 2;
 pub const SYNACK_RESEND_INTERNAL: Duration = Duration::from_millis(200);
 
 // u16 SeqNrs wrap around. If they are too far apart, this is used to detect if they wrapped or not.
-pub const WRAP_TOLERANCE: u16 = 1024;
+// Half of the sequence space, i.e. plain serial number arithmetic: the default buffers alone allow
+// ~2000 packets in flight (many more with a small MTU), so anything smaller breaks connections
+// whose sequence numbers happen to wrap while that many packets are outstanding.
+pub const WRAP_TOLERANCE: u16 = u16::MAX / 2;
 
 pub const CONGESTION_TRACING_LOG_LEVEL: Level = Level::DEBUG;
 pub const RTTE_TRACING_LOG_LEVEL: Level = Level::TRACE;
